@@ -283,6 +283,11 @@ def shard_degenerate(arg):
                     p[(axis + 1) % 3] = 2 * v + 1
                     other_axis.append(p)
                 coincident = [np.array([1.0, -2.0, 0.5])] * n
+                # coincident up to rounding noise (a few ulp): a refusal is
+                # allowed; an answer must still be proper and optimal
+                noisy = [np.array([1.0, 1.0, 3.0]) +
+                         np.array([i, -i, 2 * i]) * 2.2e-16 * ((-1)**i)
+                         for i in range(n)]
                 variants = [("x-axis/y-generic%d" % k, line, g)
                             for k, g in enumerate(generics)]
                 variants += [("x-generic%d/y-axis" % k, g, line)
@@ -291,6 +296,7 @@ def shard_degenerate(arg):
                     ("both-axis", line, other_axis),
                     ("x-coincident", coincident, generic),
                     ("y-coincident", generic, coincident),
+                    ("x-noise-coincident", noisy, generic),
                 ]
                 for name, xs, ys in variants:
                     for oi, off in enumerate(OFFS):
@@ -305,7 +311,8 @@ def shard_degenerate(arg):
                                 "kind": "degenerate", "variant": name,
                                 "x": xo, "y": [np.asarray(p).tolist()
                                                for p in ys],
-                                "with_scale": ws, "must_refuse": oi == 0,
+                                "with_scale": ws,
+                                "must_refuse": oi == 0 and "noise" not in name,
                                 "may_refuse": True, "equiv": None
                             }
                             msgs = run_case(case, acc)
